@@ -25,6 +25,7 @@ import (
 	"unsafe"
 
 	"verif/mc/ev"
+	"verif/mc/schedatomic"
 
 	"github.com/NethermindEth/juno/core"
 	"github.com/NethermindEth/juno/core/felt"
@@ -112,7 +113,11 @@ func newWorld() *world {
 // layoutOK guards the unsafe peek: ChainStorage must consist of exactly one atomic.Pointer[ChainReader].
 func layoutOK() error {
 	t := reflect.TypeOf(preconfirmed.ChainStorage{})
-	if t.NumField() != 1 || t.Field(0).Type != reflect.TypeOf(atomic.Pointer[preconfirmed.ChainReader]{}) {
+	// bin/check builds sync/preconfirmed against verif/mc/schedatomic (prebuild.sh), whose Pointer[T] wraps the real
+	// atomic.Pointer[T] as its only field (same layout); the -race rebuild of race_test.go uses the plain package.
+	ft := t.Field(0).Type
+	if t.NumField() != 1 || (ft != reflect.TypeOf(atomic.Pointer[preconfirmed.ChainReader]{}) && ft != reflect.TypeOf(schedatomic.Pointer[preconfirmed.ChainReader]{})) ||
+		unsafe.Sizeof(schedatomic.Pointer[preconfirmed.ChainReader]{}) != unsafe.Sizeof(atomic.Pointer[preconfirmed.ChainReader]{}) {
 		return fmt.Errorf("preconfirmed.ChainStorage layout changed: %v", t)
 	}
 	return nil
@@ -549,7 +554,15 @@ func TestCheck(t *testing.T) {
 	chk := &checker{r: r, canons: canons, tallest: canons[4]}
 	classesBefore := classPoolDigest()
 
-	// harness D first: it is cheap (seconds) and has its own cap, so it is not starved when a loaded machine lets
+	// harness E (atomics_test.go) first: seconds, own cap; a writer landing between the atomic operations of one
+	// reader call
+	atomicsHarness(r)
+	if os.Getenv("C20_ONLY") == "E" { // development hook: harness E alone (the evidence of such a run is not a check result)
+		r.Finish()
+		return
+	}
+
+	// harness D next: it is cheap (seconds) and has its own cap, so it is not starved when a loaded machine lets
 	// the explorers below use up the whole budget
 	readersHarness(r, canons)
 
